@@ -339,8 +339,61 @@ func fixedWidthHex(t *rapid.T, bits, digits int, label string) string {
 	return hexOf(v)
 }
 
+// genConstWidths: one constant value used at three (or four) different widths
+// in one program - as a bare literal next to a value of the first width and
+// through typed conversions next to values of the others - in a drawn order.
+func genConstWidths(t *rapid.T) Case {
+	kind := rapid.SampledFrom([]string{"int", "uint"}).Draw(t, "cwkind")
+	all := rapid.Permutation([]int{8, 16, 32, 64, 7, 33, 24, 100}).Draw(t, "cwwidths")
+	nw := rapid.IntRange(3, 4).Draw(t, "cwn")
+	ws := all[:nw]
+	k := rapid.SampledFrom([]int{1, 2, 3, 7, 21, 63}).Draw(t, "cwconst")
+	ty := func(w int) string { return fmt.Sprintf("%s%d", kind, w) }
+	op := rapid.SampledFrom([]string{"+", "+", "-", "^", "|", "*"}).Draw(t, "cwop")
+	// main(a T0, b T1); values of the other widths are casts of a.
+	var sb strings.Builder
+	var rets, types []string
+	fmt.Fprintf(&sb, "package main\n\nfunc main(a %s, b %s) (", ty(ws[0]), ty(ws[1]))
+	vals := []string{"a", "b"}
+	var decl strings.Builder
+	for i := 2; i < nw; i++ {
+		v := fmt.Sprintf("c%d", i)
+		fmt.Fprintf(&decl, "\t%s := %s(a) + %s(a)\n", v, ty(ws[i]), ty(ws[i]))
+		vals = append(vals, v)
+	}
+	bare := rapid.IntRange(0, nw-1).Draw(t, "cwbare")
+	for _, i := range rapid.Permutation(seq(nw)).Draw(t, "cworder") {
+		c := fmt.Sprintf("%s(%d)", ty(ws[i]), k)
+		if i == bare && ws[i] >= 8 {
+			c = fmt.Sprint(k)
+		}
+		if rapid.Bool().Draw(t, "cwleft") && c != fmt.Sprint(k) {
+			rets = append(rets, fmt.Sprintf("%s %s %s", c, op, vals[i]))
+		} else {
+			rets = append(rets, fmt.Sprintf("%s %s %s", vals[i], op, c))
+		}
+		types = append(types, ty(ws[i]))
+	}
+	sb.WriteString(strings.Join(types, ", ") + ") {\n" + decl.String())
+	sb.WriteString("\treturn " + strings.Join(rets, ", ") + "\n}\n")
+	cs := Case{Src: sb.String(), Tmpl: "const-widths", Seed: rapid.Uint64().Draw(t, "seed")}
+	cs.X = []string{fixedWidthHex(t, ws[0], (ws[0]+3)/4, "a")}
+	cs.Y = []string{fixedWidthHex(t, ws[1], (ws[1]+3)/4, "b")}
+	return cs
+}
+
+func seq(n int) []int {
+	r := make([]int, n)
+	for i := range r {
+		r[i] = i
+	}
+	return r
+}
+
 func genTemplate(t *rapid.T) Case {
-	switch rapid.IntRange(0, 11).Draw(t, "templatekind") {
+	switch rapid.IntRange(0, 13).Draw(t, "templatekind") {
+	case 12, 13:
+		return genConstWidths(t)
 	case 10, 11:
 		return genTempChains(t)
 	case 0, 1:
